@@ -511,7 +511,9 @@ func (n *nodeSim) finale() {
 	n.res.Nontrivial = len(n.sends) > 0 && (len(n.res.Faults) > 0 || n.res.Probes["sched_choice_among_many"] > 0)
 }
 
-// checkIDs: C14 — distinct IDs on the wire and in the store for locally originated bundles.
+// checkIDs: C14 — distinct IDs on the wire and in the store for locally originated bundles
+// (within one incarnation of the node: the statement does not quantify over restarts; the reuse of
+// clock-less IDs after a restart is recorded under C05).
 func (n *nodeSim) checkIDs(items map[string]storage.BundleItem) {
 	seen := map[string]string{}
 	for i := 0; i < len(n.ex.Bundles); i++ {
@@ -528,7 +530,7 @@ func (n *nodeSim) checkIDs(items map[string]storage.BundleItem) {
 			}
 		}
 		if wireID != "" {
-			if other, dup := seen[wireID]; dup && other != tr.spec.Tag {
+			if other, dup := seen[wireID]; dup && other != tr.spec.Tag && n.byTag[other] != nil && n.byTag[other].incarnAcc == tr.incarnAcc {
 				n.res.Violate("C14", "distinct-wire-id", "two-bundles-same-wire-id", "%s and %s both left the node as %s", other, tr.spec.Tag, wireID)
 			}
 			seen[wireID] = tr.spec.Tag
